@@ -2645,8 +2645,10 @@ class RockRidge:
             self.rr_version = '1.12'
         elif continuation and self.rr_version:
             # The entries in a continuation area only add to what the
-            # directory record's own entries already told us.
-            pass
+            # directory record's own entries already told us -- except that an
+            # RR record found here makes a record without one a 1.09 record.
+            if self.rr_version == '1.10' and self.ce_entries.rr_record is not None:
+                self.rr_version = '1.09'
         else:
             # Not 1.12, so either 1.09 or 1.10.  Version 1.10 never has an RR
             # record; without one, later entries should not get one either.
